@@ -28,7 +28,10 @@ def small_container(rng, depth=0):
     if c == 0:
         return rng.choice(ATOMS)
     if c == 1:
-        return {k: small_container(rng, depth + 1) for k in rng.sample(['a', 'b', 'c'], rng.randint(0, 2))}
+        d = {k: small_container(rng, depth + 1) for k in rng.sample(['a', 'b', 'c'], rng.randint(0, 2))}
+        if d and rng.random() < 0.3:
+            d[rng.choice(list(d))] = None
+        return d
     if c == 2:
         return [small_container(rng, depth + 1) for _ in range(rng.randint(0, 2))]
     return tuple(small_container(rng, depth + 1) for _ in range(rng.randint(0, 2)))
@@ -57,6 +60,9 @@ def vary(old, rng):
             return new if new or rng.random() < 0.5 else {'a': None}
         k = rng.choice(list(new))
         if c == 1:
+            nones = [kk for kk in new if new[kk] is None]
+            if nones:
+                k = rng.choice(nones)                # "missing key" vs "key holding None" is the classic confusion
             new[k + '_'] = new.pop(k)            # same size, one key renamed, value kept (possibly None)
         elif c == 2:
             new[k] = None if new[k] is not None else 0
